@@ -461,3 +461,5 @@ End ExportWithHash.
 Definition retention_ok (mats : list material) : bool :=
   match canon N.compare mat_cmp mat_digest mats with Some _ => true | None => false end.
 
+(* a concrete (weak) hash used only by the non-vacuity Example of Props/C20.v *)
+Definition toy_hash (b : bytes) : N := fold_left (fun a x => (a * 257 + x + 1) mod 1000003) b 7.
